@@ -2,6 +2,13 @@
 
 from .registry import register, SeqPart, SeqEnumPart, ConcPart, ConcPairsPart, ConcCrashPart, SingleSweepPart, SingleRandomPart
 
+def _raw_hooks(prog):
+    """Rejected calls (invalid-argument grammar) may appear in any history: "calls made earlier on the
+    same instance" include the ones that were refused."""
+    from . import hooks as H
+    return {"raw": H.hook_raw}
+
+
 COMMON_ASSUME = [
     "the kernel file system (tmpfs sandbox) and CPython's os/io/shutil/tempfile/pathlib are correct",
     "the reference model (sim/model.py, ~250 lines) states the property correctly",
@@ -23,7 +30,7 @@ register("C02", "exploration",
          "what another thread did)",
          COMMON_ASSUME + ["accepted spellings = strings the documented normalisation rule maps to a supported name"],
          30, 420,
-         [SeqPart("C02", focus=["algo-arg", "op:hexdigest"], weight=2.0),
+         [SeqPart("C02", focus=["algo-arg", "op:hexdigest"], weight=2.0, hooks=_raw_hooks),
           ConcPart("C02", "objalgo", name="conc-algo", weight=1.0)])
 
 register("C03", "exploration",
@@ -32,7 +39,7 @@ register("C03", "exploration",
                           "PidRefsAlreadyExistsError) counts as the rejection"],
          30, 420,
          [SeqEnumPart("C03", "obj", "seq-enum", focus=["rebind-rejected"]),
-          SeqPart("C03", focus=["rebind-rejected"], weight=2.5),
+          SeqPart("C03", focus=["rebind-rejected"], weight=2.5, hooks=_raw_hooks),
           ConcPart("C03", "obj", name="conc-obj", weight=1.0)])
 
 register("C04", "exploration",
@@ -45,7 +52,7 @@ register("C04", "exploration",
 register("C05", "exploration",
          SEQ_RULE + "; focus = any reference-changing call (tag/delete/store with pid)",
          COMMON_ASSUME, 30, 420,
-         [SeqEnumPart("C05", "obj", "seq-enum"), SeqPart("C05", focus=["op:tag", "delete-ok", "op:store"], weight=2.5),
+         [SeqEnumPart("C05", "obj", "seq-enum"), SeqPart("C05", focus=["op:tag", "delete-ok", "op:store"], weight=2.5, hooks=_raw_hooks),
           ConcPart("C05", "obj", name="conc-obj", weight=1.0)])
 
 register("C06", "exploration",
@@ -53,12 +60,12 @@ register("C06", "exploration",
          COMMON_ASSUME + ["expected size 0 is an argument error, not a verdict",
                           "delete_if_invalid_object on ObjectMetadata whose object is gone: weak oracle only"],
          30, 420,
-         [SeqPart("C06", focus=["validated-store", "div"])])
+         [SeqPart("C06", focus=["validated-store", "div"], hooks=_raw_hooks)])
 
 register("C11", "exploration",
          SEQ_RULE + "; focus = a metadata call",
          COMMON_ASSUME, 30, 420,
-         [SeqEnumPart("C11", "meta", "seq-enum", focus=["meta"]), SeqPart("C11", focus=["meta"], weight=2.5),
+         [SeqEnumPart("C11", "meta", "seq-enum", focus=["meta"]), SeqPart("C11", focus=["meta"], weight=2.5, hooks=_raw_hooks),
           ConcPart("C11", "metax", name="conc-collide", weight=1.0)])
 
 register("C16", "exploration",
@@ -128,7 +135,9 @@ register("C13", "fault_enumeration",
                           extended_in=("thorough",)),
           SingleSweepPart("C13", "FAULT", "fault-sweep-errnos", errnos=("ENOSPC", "EACCES"), weight=0.5,
                           extended_in=("thorough",), only_tiers=("thorough",)),
-          SingleRandomPart("C13", "FAULT", "fault-random", weight=2.0),
+          SingleRandomPart("C13", "FAULT", "fault-random", weight=2.0, mp="mixed"),
+          SingleSweepPart("C13", "FAULT", "fault-sweep-mp", errnos=("EIO",), modes=(False, True), weight=0.4,
+                          knob_sets=[dict(mp=True)]),
           SingleRandomPart("C13", "FAULT", "fault-random-ext", weight=0.5, kinds="ext")])
 
 register("C10", "fault_enumeration",
@@ -149,7 +158,7 @@ register("C10", "fault_enumeration",
                           knob_sets=[dict(write_through=True, blksize=4)]),
           SingleSweepPart("C10", "CRASH", "crash-sweep-buffered", weight=0.5, only_tiers=("thorough",),
                           knob_sets=[dict(write_through=False), dict(write_through=True, csize=(9000, 20000))]),
-          SingleRandomPart("C10", "CRASH", "crash-random", weight=1.5, second=True),
+          SingleRandomPart("C10", "CRASH", "crash-random", weight=1.5, second=True, mp="mixed"),
           ConcCrashPart("C10", "crash-conc", weight=1.0)])
 
 register("C09", "fault_enumeration",
